@@ -21,6 +21,11 @@
 (*                                   parent | other                           *)
 (*   shutdown                        outer-cancel: Run's context ends         *)
 (*   adv {now}                       the (virtual) clock was advanced         *)
+(*                                   (outer-cancel runs on a virtual clock    *)
+(*                                   that moves only while every goroutine is *)
+(*                                   blocked: a writer that finds nothing     *)
+(*                                   held and nothing in flight is granted at *)
+(*                                   the instant it asks)                     *)
 (*   obs {entries}                   fifo map at rest: number of per-key      *)
 (*                                   entries                                  *)
 (*   quiet                           lock.Context: every goroutine is blocked *)
@@ -41,7 +46,7 @@ Get(f, k, d) == IF k \in DOMAIN f THEN f[k] ELSE d
 Put(f, k, v) == (k :> v) @@ f
 Now(e) == IF "now" \in DOMAIN e THEN e.now ELSE 0
 
-NoG == [st |-> "idle", key |-> 0, mode |-> "w", ask |-> 0, cancelled |-> FALSE, told |-> FALSE]
+NoG == [st |-> "idle", key |-> 0, mode |-> "w", ask |-> 0, cancelled |-> FALSE, told |-> FALSE, alone |-> FALSE]
 
 CReset(e) == [bad |-> FALSE, why |-> "", prim |-> e.prim, graceful |-> e.graceful,
               g |-> << >>,       \* goroutine -> NoG-shaped record; st: idle | calling | held | in | out | releasing
@@ -61,11 +66,15 @@ Unqueue(c, k, g) ==
       t == [i \in 1..Len(s) |-> s[i] \ {g}]
   IN Put(c.q, k, SelectSeq(t, LAMBDA x : x # {}))
 
+(* alone: during the whole call nobody else held anything (acq_ret ok .. rel_ret) or had a call in flight *)
+(* (acq_call .. acq_ret); any other call that starts meanwhile ends it for everybody who waits            *)
 CAcqCall(c, e) ==
   IF Get(c.g, e.g, NoG).st # "idle" THEN Bad("harness-acq-call-while-busy")
-  ELSE [c EXCEPT !.g = Put(c.g, e.g, [st |-> "calling", key |-> e.key, mode |-> e.mode, ask |-> Now(e),
-                                      cancelled |-> e.pre, told |-> FALSE]),
-                 !.lastk = e.key]
+  ELSE LET others == [h \in Gs(c) \ {e.g} |-> [c.g[h] EXCEPT !.alone = FALSE]]
+           quiet == \A h \in Gs(c) \ {e.g} : c.g[h].st = "idle"
+       IN [c EXCEPT !.g = Put(others, e.g, [st |-> "calling", key |-> e.key, mode |-> e.mode, ask |-> Now(e),
+                                            cancelled |-> e.pre, told |-> FALSE, alone |-> quiet]),
+                    !.lastk = e.key]
 
 CArrive(c, e) ==
   IF Get(c.g, e.g, NoG).st # "calling" THEN c      \* it has returned meanwhile: no information
@@ -86,6 +95,8 @@ CAcqRet(c, e) ==
        THEN Bad("outer-reader-admitted-while-writer-holds")
   ELSE IF Outer(c) /\ r.mode = "w" /\ \E h \in liveR : ~c.g[h].told
        THEN Bad("outer-writer-granted-before-reader-released-or-cancelled")
+  ELSE IF Outer(c) /\ r.mode = "w" /\ r.alone /\ Now(e) > r.ask
+       THEN Bad("outer-writer-delayed-with-nothing-held")    \* an errored or released acquisition still holds something
   ELSE [c EXCEPT !.g[e.g].st = "held", !.q = Unqueue(c, k, e.g)]
 
 CEnter(c, e) ==
